@@ -4,10 +4,248 @@ import pool_shared as ps
 import handles as H
 
 PROP = 'C01'
+REPLAYERS = {'pool.TaskHandler.body': 'replayers/taskhandler_body.py'}
+
+ASSUMPTIONS = [
+    'A-atomic: the handlers (on_ack, on_ready, one timeout scan, one supervision tick, one send) do not interleave with '
+    'each other below handler granularity (true for threads=False; for threads=True ApplyResult._set/_ack hold the job mutex)',
+    'A-fifo: messages of one worker arrive in the order it put them',
+    'hooks supplied by the embedding application (on_timeout_set/cancel, send_ack, on_job_ready) return normally; user '
+    'callbacks may raise anything; no foreign callable touches pool state',
+    'the cache invariant (every handle filed under its own id, pointing back to the cache) is established by the '
+    'constructors (cache[self._job] = self) and is assumed at the key a handler looks up',
+]
+OUT_OF_REACH = [
+    'liveness: that every job *reaches* an outcome (needs thread progress and worker liveness)',
+    'statement-level races between the ready() test in on_hard_timeout/_join_exited_workers and on_ready under threads=True',
+    'MapResult/IMapIterator handle kinds: their _set/_ack are not under contract in this check (apply jobs only)',
+]
+TRUSTED = []
+
+
+def job_inv_for(expr):
+    return ' and '.join('(%s)' % v.replace('self.', expr + '.') for v in H.JOB_INV.values())
+
+
+def cache_wf(c, k):
+    """the global cache invariant, instantiated at the one key this handler
+    looks up (every handle is filed under its own id, points back to this
+    cache, and is well formed): quantifier-free"""
+    e = 'get(%s, %s)' % (c, k)
+    return {'cache_entry_wf': 'implies(has(%s, %s), allocated(%s) and %s._job == %s and %s._cache == %s and %s)' % (
+        c, k, e, e, k, e, c, job_inv_for(e))}
+
+
+def ext_sem_release(ex, args, kw):
+    """LaxBoundedSemaphore.release(): counted (its own contract is C10's)"""
+    gset(ex, 'releases', SV(IntS, gget(ex, 'releases').e + 1))
+    return SNone()
+
+
+def ext_trywaitkill(ex, args, kw):
+    """TimeoutHandler._trywaitkill(worker): signals the worker (C05 verifies
+    its body); touches no job"""
+    gset(ex, 'signals', SV(IntS, gget(ex, 'signals').e + 1))
+    return SNone()
+
+
+def ext_process_by_pid(ex, args, kw):
+    """TimeoutHandler._process_by_pid(pid): (worker, index) of a worker with
+    that pid in the pool list, or (None, None)"""
+    if ex.path.choose(2) == 0:
+        return STup([SNone(), SNone()])
+    wk = ref('WorkerP').fresh('proc')
+    ex.path._assume_wf(wk)
+    return STup([wk, IntS.fresh('idx')])
+
+
+SET_FRAME = ['Job._success', 'Job._value', 'Event.flag', 'cache.has', 'cache.size',
+             'g.ncalls', 'g.assigned', 'g.cb_raised']
+
+# ---- the task feeder: scripted queue / put ---------------------------------
+TASK = tup(IntS, tup(IntS, opt(IntS), ValS, ValS, ValS))
+
+
+def ext_taskqueue_get(ex, args, kw):
+    """taskqueue.get(): the sentinel None, or (taskseq, set_length) with
+    taskseq a list of well-formed TASK messages (as built by apply_async /
+    _map_async / imap: (TASK, (job, i, func, args, kwds)))"""
+    if ex.path.choose(2) == 0:
+        return SNone()
+    seq = list_of(TASK).fresh('taskseq')
+    ex.path._assume_wf(seq)
+    ex.path.assume(ex.path.read_field(seq, 'len').e >= 0)
+    sl = opt(ValS).fresh('set_length')
+    ex.path.assume(z3.Or(sl.isnone, z3.And(H._is_hook(sl.val.e), ex.truthy(sl.val))))
+    return STup([seq, sl])
+
+
+def ext_put(ex, args, kw):
+    """put(task): records which job is being sent (ghost g.sending); succeeds,
+    or raises IOError (pipe gone) or another Exception (e.g. PicklingError)"""
+    task = args[0]
+    ex.path.assume(task.items[0].e == 2)          # TASK tag (well-formed message)
+    gset(ex, 'sending', task.items[1].items[0])
+    record(ex, 'put_job', task.items[1].items[0])
+    # the global cache invariant, instantiated at the job being sent
+    for clause in cache_wf('self.cache', 'g.sending').values():
+        ex.path.assume(ex.spec_bool(clause))
+    k = ex.path.choose(3)
+    if k == 1:
+        raise_exc(ex, 'OSError')
+    if k == 2:
+        raise_exc(ex, 'AnyException')
+    return SNone()
+
+
+def ext_callable_in_body(ex, args, kw):
+    """foreign callables reached from TaskHandler.body: self.put is the
+    scripted send above, anything else (set_length) the generic callable"""
+    me = ex.root.scopes[0]['self']
+    put = ex.path.read_field(me, 'put')
+    if len(args) == 2 and isinstance(args[1], STup) and ex.path.decide(args[0].e == put.e):
+        return ext_put(ex, args[1:], kw)
+    return H.ext_callable(ex, args, kw)
 
 
 def build(w):
     ps.declare(w)
     H.declare_handles(w)
+    ps.declare_handlers(w)
+    w.classes['g'].fields['sending'] = IntS
+    w.externals['pool.LaxBoundedSemaphore.release'] = ext_sem_release
     items = H.apply_handle_contracts(PROP)
-    return items
+
+    resolved_once = {
+        # the message is for a job that is still in the cache: exactly one
+        # assignment, to that job, of the outcome carried by the message
+        'own_job_assigned_once': 'implies(old(has(cache, job)), '
+                                 'g.assigned[job] == old(g.assigned[job]) + 1)',
+        'own_outcome': 'implies(old(has(cache, job)), old(get(cache, job))._event.flag and '
+                       'old(get(cache, job))._success == obj[0] and old(get(cache, job))._value == obj[1])',
+        'no_other_job_assigned': 'map_only_changed(g.assigned, old(g.assigned), job)',
+        'other_outcomes_unchanged': 'only_changed_at("Job._success", old(get(cache, job))) and '
+                                    'only_changed_at("Job._value", old(get(cache, job))) and '
+                                    'only_changed_at("Event.flag", old(get(cache, job))._event)',
+        # late or duplicate message: the job is no longer in the cache
+        'late_or_duplicate_ignored': 'implies(not old(has(cache, job)), unchanged("Job._success") and '
+                                     'unchanged("Job._value") and unchanged("Event.flag") and '
+                                     'unchanged("g.assigned") and g.releases == old(g.releases))',
+        'slot_returned_on_first_result': 'implies(old(has(cache, job)) and putlock is not None, '
+                                         'g.releases == old(g.releases) + ite(old(get(cache, job)._event.flag), 0, 1))',
+        'only_own_cache_entry_removed': 'only_key_changed(cache, job)',
+    }
+    on_ready = Contract(
+        'pool.ResultHandler._make_methods.<locals>.on_ready', prop=PROP,
+        enclosing={'self': ref('ResultHandler')},
+        params={'job': IntS, 'i': opt(IntS), 'obj': tup(BoolS, ValS), 'inqW_fd': opt(IntS)},
+        requires=dict(cache_wf('cache', 'job'), hook='is_hook(on_job_ready) and (on_job_ready is None or truthy(on_job_ready))',
+                      counters='self.on_ready_counters is None or allocated(val(self.on_ready_counters))'),
+        modifies=SET_FRAME + ['g.releases', 'Counter.value'],
+        ensures=resolved_once,
+        raises={'MemoryError': resolved_once, 'AnyException': resolved_once, 'AnyBaseException': resolved_once},
+    )
+    ack_post = {
+        'owner_recorded_on_own_job': 'implies(old(has(cache, job)), old(get(cache, job))._accepted)',
+        'no_outcome_changed': 'unchanged("Job._success") and unchanged("Job._value") and unchanged("Event.flag") '
+                              'and unchanged("g.assigned")',
+        'unknown_job_ignored': 'implies(not old(has(cache, job)), unchanged("Job._accepted") and '
+                               'unchanged("Job._worker_pid") and unchanged("Job._time_accepted"))',
+        'only_own_entry': 'only_key_changed(cache, job) and only_changed_at("Job._accepted", old(get(cache, job))) '
+                          'and only_changed_at("Job._worker_pid", old(get(cache, job)))',
+    }
+    on_ack = Contract(
+        'pool.ResultHandler._make_methods.<locals>.on_ack', prop=PROP,
+        enclosing={'self': ref('ResultHandler')},
+        params={'job': IntS, 'i': opt(IntS), 'time_accepted': RealS, 'pid': IntS, 'synqW_fd': opt(IntS)},
+        requires=cache_wf('cache', 'job'),
+        modifies=['restart_state.R', 'Job._accepted', 'Job._time_accepted', 'Job._worker_pid',
+                  'cache.has', 'cache.size', 'g.ncalls', 'g.cb_raised'],
+        ensures=ack_post,
+        raises={'AnyBaseException': ack_post},
+    )
+
+    # ---- pool-made failures ------------------------------------------------
+    hard_post = {
+        'resolved_job_untouched': 'implies(old(job._event.flag), unchanged("Job._success") and unchanged("Job._value") '
+                                  'and unchanged("Event.flag") and unchanged("g.assigned") and g.signals == old(g.signals))',
+        'fails_with_TimeLimitExceeded': 'implies(not old(job._event.flag), job._event.flag and not job._success and '
+                                        'job._value == einfo(TimeLimitExceeded(old(job._timeout))))',
+        'assigned_once': 'implies(not old(job._event.flag), g.assigned[job._job] == old(g.assigned[job._job]) + 1)',
+        'no_other_job_touched': 'only_changed_at("Job._success", job) and only_changed_at("Job._value", job) and '
+                                'only_changed_at("Event.flag", job._event) and '
+                                'map_only_changed(g.assigned, old(g.assigned), job._job)',
+    }
+    hard = Contract(
+        'pool.TimeoutHandler.on_hard_timeout', prop=PROP,
+        params={'self': ref('TimeoutHandler'), 'job': ref('Job')},
+        externals={'pool.TimeoutHandler._trywaitkill': ext_trywaitkill,
+                   'pool.TimeoutHandler._process_by_pid': ext_process_by_pid},
+        inline=['pool.ApplyResult.handle_timeout'],
+        requires={'job_wf': job_inv_for('job')},
+        modifies=['job._success', 'job._value', 'job._event.flag', 'job._cache.has', 'job._cache.size',
+                  'g.ncalls', 'g.assigned', 'g.signals', 'g.cb_raised'],
+        ensures=hard_post,
+        raises={'MemoryError': hard_post, 'AnyException': hard_post, 'AnyBaseException': hard_post},
+    )
+    lost_post = {
+        'failed_observably': 'job._event.flag and not job._success',
+        'assigned_once': 'g.assigned[job._job] == old(g.assigned[job._job]) + 1',
+        'no_other_job_touched': 'only_changed_at("Job._success", job) and only_changed_at("Job._value", job) and '
+                                'only_changed_at("Event.flag", job._event) and '
+                                'map_only_changed(g.assigned, old(g.assigned), job._job)',
+    }
+    lost = Contract(
+        'pool.Pool.mark_as_worker_lost', prop=PROP,
+        params={'self': ref('Pool'), 'job': ref('Job'), 'exitcode': opt(IntS)},
+        requires={'job_wf': job_inv_for('job')},
+        modifies=['job._success', 'job._value', 'job._event.flag', 'job._cache.has', 'job._cache.size',
+                  'g.ncalls', 'g.assigned', 'g.cb_raised'],
+        ensures=lost_post,
+        raises={'MemoryError': lost_post, 'AnyException': lost_post, 'AnyBaseException': lost_post},
+    )
+
+    # ---- the task feeder: "task could not be sent" resolves *that* job ------
+    set_for_sender = H.set_contract(PROP)
+    set_for_sender.params = dict(set_for_sender.params, i=ValS)
+    set_for_sender.requires = dict(set_for_sender.requires,
+                                   failure_attached_to_the_job_being_sent='self._job == g.sending')
+    body = Contract(
+        'pool.TaskHandler.body', prop=PROP,
+        params={'self': ref('TaskHandler')},
+        callee_contracts={'pool.ApplyResult._set': set_for_sender},
+        externals={'<opaque>.get': ext_taskqueue_get, '<callable>': ext_callable_in_body,
+                   'pool.TaskHandler.tell_others': lambda ex, a, k: SNone()},
+        requires={'nothing_being_sent': 'g.sending == -1', 'cache_allocated': 'allocated(self.cache)'},
+        modifies=['Job._success', 'Job._value', 'Event.flag', 'self.cache.has', 'self.cache.size', 'g.ncalls', 'g.assigned', 'g.sending', 'g.cb_raised'],
+        loops={
+            0: {'inv': {'cache': 'cache == self.cache'},
+                'modifies': ['Job._success', 'Job._value', 'Event.flag', 'self.cache.has', 'self.cache.size',
+                             'g.ncalls', 'g.assigned', 'g.sending', 'g.cb_raised'],
+                'locals': {'task': opt(TASK), 'i': IntS, 'taskseq': list_of(TASK), 'set_length': opt(ValS)}},
+            1: {'inv': {'cache': 'cache == self.cache'},
+                'modifies': ['Job._success', 'Job._value', 'Event.flag', 'self.cache.has', 'self.cache.size',
+                             'g.ncalls', 'g.assigned', 'g.sending', 'g.cb_raised'],
+                'locals': {'task': opt(TASK), 'i': IntS}},
+        },
+        ensures={'t': 'True'},
+        # a user callback that raised (propagated error) ends the thread by design
+        raises={'MemoryError': {'cb': 'g.cb_raised'}, 'AnyBaseException': {'cb': 'g.cb_raised'},
+                'AnyException': {'cb': 'g.cb_raised'},
+                # observation: on that same path `ind + 1` with ind None masks the propagated error
+                'TypeError': {'only_while_a_callback_error_propagates': 'g.cb_raised'}},
+    )
+    return items + [on_ready, on_ack, hard, lost, body]
+
+MANIFEST_ENTRY = {
+    'text': 'Proof (unbounded) of the safety core for apply jobs: ApplyResult._set/_ack/_set_terminated/discard are verified '
+            'against contracts taken from the statement (event set, own outcome stored, removed from the cache iff accepted, '
+            'success/error callbacks never both and each at most once, exactly one assignment counted per call); the handlers '
+            'on_ready and on_ack are proved, for every message and every cache state, to assign exactly once to the job named in '
+            'the message with that message\'s outcome and to ignore late/duplicate messages (job no longer cached) without touching '
+            'any outcome; on_hard_timeout leaves a resolved job untouched and otherwise fails exactly that job with '
+            'TimeLimitExceeded; mark_as_worker_lost fails exactly that job; TaskHandler.body attaches a send failure to the job '
+            'being sent and to no other (this obligation was refuted on the pinned tree and replayed: defect D1, fixed).',
+    'note': 'Handler granularity (A-atomic) and FIFO per worker are assumed; hooks are assumed not to raise; liveness ("reaches") '
+            'and statement-level thread races are out of reach; map/imap handle kinds are not covered by this check.',
+}
